@@ -531,7 +531,7 @@ def make_case(rng, kind, thorough, idx):
         prog = rng.choice(("forward", "step2 forward", "step3 inverse", "forward step2"))
     runs = []
     seeds = lambda: rng.randint(0, 10 ** 9)  # noqa: E731
-    nsched = 40 if thorough else 18
+    nsched = 40 if thorough else 24
     for nt in (0, 1, 2, 3, 4, 8):          # 0 = mju_threadpool(d, 0): no pool at all
         runs.append(("pass", nt, 0, "x"))
     for _ in range(max(3, nsched // 5)):
@@ -662,7 +662,7 @@ def judge(ctx, exe, case, answers, err, rc, plain, stats, seen):
 def kinds_for(tier):
     if tier == "thorough":
         return ["piles"] * 170 + ["random"] * 90 + ["tactile"] * 40
-    return ["piles"] * 9 + ["random"] * 5 + ["tactile"] * 3
+    return ["piles"] * 11 + ["random"] * 5 + ["tactile"] * 4
 
 
 # ------------------------------------------------------------------------------------------ the check
@@ -791,7 +791,7 @@ def run(ctx):
         print("REPLAY answers: " + " | ".join(x for x in r.stdout.split("\n") if x and x != "ok")[:3000])
     lap("generate")
     stats, seen = {}, {}
-    nproc = 6
+    nproc = 8 if thorough else 6
     res = run_cases(impl, cases, False, nproc, 3000 if thorough else 600)
     lap("engine_runs_shim")
     for c, answers, err, rc in res:
